@@ -2,6 +2,7 @@
 package tree
 
 import (
+	"context"
 	"encoding/json"
 	"errors"
 	"fmt"
@@ -32,6 +33,9 @@ type Node struct {
 	// Stillborn: a leaf spawned with MaxRestarts 0 that panics in its Started handler, so it is
 	// already gone when SpawnChild returns
 	Stillborn bool `json:"stillborn,omitempty"`
+	// CtxCancelled: the node is spawned WithContext(ctx) and ctx is cancelled already.  The spawn
+	// context is user data; it must not influence how the tree is taken down.
+	CtxCancelled bool `json:"ctx_cancelled,omitempty"`
 }
 
 type PreStop struct {
@@ -224,6 +228,10 @@ func run(c TCase) (map[string]int, error) {
 		}
 	}
 	opts := []actor.OptFunc{actor.WithID("0")}
+	if c.Nodes[0].CtxCancelled {
+		opts = append(opts, actor.WithContext(cancelledCtx()))
+		feat["spawned-with-a-cancelled-context"]++
+	}
 	if c.Target == 0 && c.How == "crash" {
 		opts = append(opts, actor.WithMaxRestarts(0))
 	}
@@ -513,6 +521,9 @@ func (h *harness) receiveWith(i int, c *actor.Context, crashNode int) {
 				if k == crashNode || h.c.Nodes[k].Stillborn {
 					opts = append(opts, actor.WithMaxRestarts(0))
 				}
+				if h.c.Nodes[k].CtxCancelled {
+					opts = append(opts, actor.WithContext(cancelledCtx()))
+				}
 				c.SpawnChild(func() actor.Receiver {
 					return recv(func(ctx *actor.Context) { h.receiveWith(k, ctx, crashNode) })
 				}, "n", opts...)
@@ -521,6 +532,12 @@ func (h *harness) receiveWith(i int, c *actor.Context, crashNode int) {
 		return
 	}
 	h.receive(i, c)
+}
+
+func cancelledCtx() context.Context {
+	ctx, cancel := context.WithCancel(context.Background())
+	cancel()
+	return ctx
 }
 
 func gen(t *rapid.T) TCase {
@@ -548,6 +565,7 @@ func gen(t *rapid.T) TCase {
 			c.Nodes[i].Stillborn = true
 			continue
 		}
+		c.Nodes[i].CtxCancelled = rapid.IntRange(0, 3).Draw(t, "ctx") == 0
 		if rapid.IntRange(0, 2).Draw(t, "busy") == 0 {
 			c.Nodes[i].Busy = true
 			c.Nodes[i].Queue = rapid.IntRange(0, 5).Draw(t, "queue")
